@@ -1,4 +1,6 @@
 (** C27 — PD timestamps and IDs are unique and increasing across restarts.
+    [failing] = the requests whose checkpoint write fails with an I/O error (they return an
+    error, respond nothing and leave the file as it was); every statement is for any such set.
     Any number of concurrent requests, every schedule, crashes and restarts
     (with any start flags and any new requests) at any point. *)
 From Coq Require Import List NArith.
@@ -9,8 +11,8 @@ Local Open Scope N_scope.
 (** the reservations of an incarnation are non-empty intervals, strictly
     increasing in reservation order, above the incarnation's base and at or below
     the counter: no two reservations share a value *)
-Theorem C27_unique_increasing : forall a b reqs g k,
-  a <= max_u64 -> b <= max_u64 -> reachable (tstep true) (init a b reqs) g ->
+Theorem C27_unique_increasing : forall failing a b reqs g k,
+  a <= max_u64 -> b <= max_u64 -> reachable (tstep true failing) (init a b reqs) g ->
   chain (base g k) (counter g k) (rlog g k) /\
   forall l1 e1 l2 e2 l3, rlog g k = l1 ++ e1 :: l2 ++ e2 :: l3 ->
     1 <= snd e1 /\ 1 <= snd e2 /\ fst e2 + snd e2 - 1 < fst e1.
@@ -19,23 +21,23 @@ Print Assumptions C27_unique_increasing.
 
 (** at every point every value already responded (in this or an earlier
     incarnation) is at or below the checkpoint on disk *)
-Theorem C27_checkpoint_covers : forall a b reqs g,
-  a <= max_u64 -> b <= max_u64 -> reachable (tstep true) (init a b reqs) g ->
+Theorem C27_checkpoint_covers : forall failing a b reqs g,
+  a <= max_u64 -> b <= max_u64 -> reachable (tstep true failing) (init a b reqs) g ->
   covered (g_ck_id g) (g_ck_ts g) (g_resp g ++ g_resp_old g).
 Proof. exact pd_checkpoint_covers. Qed.
 Print Assumptions C27_checkpoint_covers.
 
 (** a crash at any reachable state followed by a restart resumes above everything responded ... *)
-Theorem C27_restart_above : forall a b reqs g a2 b2 reqs2 g2,
-  a <= max_u64 -> b <= max_u64 -> reachable (tstep true) (init a b reqs) g ->
-  tstep true g (Crash a2 b2 reqs2) = Some g2 ->
+Theorem C27_restart_above : forall failing a b reqs g a2 b2 reqs2 g2,
+  a <= max_u64 -> b <= max_u64 -> reachable (tstep true failing) (init a b reqs) g ->
+  tstep true failing g (Crash a2 b2 reqs2) = Some g2 ->
   forall r, In r (g_resp g ++ g_resp_old g) -> iv_end r <= counter g2 (iv_kind r).
 Proof. exact pd_restart_above. Qed.
 Print Assumptions C27_restart_above.
 
 (** ... hence no reservation of a later incarnation reuses a value responded earlier *)
-Theorem C27_no_reuse_after_restart : forall a b reqs g,
-  a <= max_u64 -> b <= max_u64 -> reachable (tstep true) (init a b reqs) g ->
+Theorem C27_no_reuse_after_restart : forall failing a b reqs g,
+  a <= max_u64 -> b <= max_u64 -> reachable (tstep true failing) (init a b reqs) g ->
   forall r f c, In r (g_resp_old g) -> In (f, c) (rlog g (iv_kind r)) -> iv_end r < f.
 Proof. exact pd_no_reuse_after_restart. Qed.
 Print Assumptions C27_no_reuse_after_restart.
@@ -44,7 +46,7 @@ Print Assumptions C27_no_reuse_after_restart.
     before a crash is reserved again after the restart (F23) *)
 Theorem C27_unfixed_refuted :
   exists a b reqs sched,
-    let g := run (tstep false) (init a b reqs) sched in
+    let g := run (tstep false (fun _ => false)) (init a b reqs) sched in
     exists r f c, In r (g_resp_old g) /\ In (f, c) (rlog g (iv_kind r)) /\ f <= iv_end r.
 Proof. exact pd_unfixed_refuted. Qed.
 Print Assumptions C27_unfixed_refuted.
